@@ -275,6 +275,10 @@ func runC03(c *Ctx) {
 	c.checkParseDispatch("C03.G1")
 	c.isValidModelMultihashContract("C03.G1")
 	c.Min("C03.G1", 7)
+	// what is hashed is what the client sent: between decoding and hashing nothing is stored into the decoded request (an
+	// "empty means absent" normalisation of a member changes the suffix data that is canonicalised — two different
+	// requests get one DID)
+	c.decodedRequestUnmodifiedRule("C03.P1", "ParseCreateOperation", pco, sr)
 	c.hashLeafContracts("C04.K1")
 	// "the FIRST CONFIGURED algorithm": the list the suffix is computed from is the list the caller configured — the
 	// parser does not keep a reordered or extended copy of its protocol parameters
@@ -518,4 +522,58 @@ func (c *Ctx) isComputedUsingRule(rule string) {
 			return false, false
 		}})
 	}
+}
+
+// decodedRequestUnmodifiedRule: nothing is stored into the decoded request after decoding — neither in the parse
+// function, nor in the decoding helper, nor in the unexported helpers of the package either of them hands the request to.
+// What is validated, hashed, compared and reported is what the client sent.
+func (c *Ctx) decodedRequestUnmodifiedRule(rule, key string, f *ssa.Function, sr *schemaRef) {
+	var bad []string
+	n := 0
+	seen := map[string]bool{}
+	var scan func(g *ssa.Function, env Env, prefix string, d int)
+	scan = func(g *ssa.Function, env Env, prefix string, d int) {
+		k := g.String() + "|" + prefix
+		if g == nil || g.Blocks == nil || prefix == "" || d > 2 || seen[k] {
+			return
+		}
+		seen[k] = true
+		n++
+		forEachInstr(g, func(in ssa.Instruction) {
+			var addr ssa.Value
+			switch x := in.(type) {
+			case *ssa.Store:
+				addr = x.Addr
+			case *ssa.MapUpdate:
+				addr = x.Map
+			case *ssa.Call:
+				h := x.Call.StaticCallee()
+				if h == nil || !inModule(h) || h.Blocks == nil || pkgPathOf(h) != pkgPathOf(g) || (h.Object() != nil && h.Object().Exported()) {
+					return
+				}
+				// handed the request (or a part of it)
+				for _, a := range x.Call.Args {
+					if p := c.Path(a, env); p == prefix || strings.HasPrefix(p, prefix+".") {
+						scan(h, c.calleeEnv(&x.Call, h, env), prefix, d+1)
+						break
+					}
+				}
+				return
+			default:
+				return
+			}
+			if p := c.Path(addr, env); strings.HasPrefix(p, prefix+".") {
+				bad = append(bad, short(g.String())+" at "+c.pos(in.Pos())+": stores into "+p)
+			}
+		})
+	}
+	scan(f, nil, sr.SC, 0)
+	if sr.call != nil && sr.dec != nil {
+		for _, r := range successReturns(sr.dec) {
+			if al, isAl := returnedValue(r, 0).(*ssa.Alloc); isAl {
+				scan(sr.dec, nil, c.Path(al, nil), 0)
+			}
+		}
+	}
+	c.Check(rule, key+":decoded-request-not-modified", len(bad) == 0 && n >= 1, f.Pos(), "nothing is stored into the decoded request after decoding", bad...)
 }
